@@ -364,7 +364,8 @@ pub struct LinesSpan<'i> {
 impl<'i> Iterator for LinesSpan<'i> {
     type Item = Span<'i>;
     fn next(&mut self) -> Option<Self::Item> {
-        if self.pos > self.span.end {
+        // A line that merely starts where a non-empty span ends is not covered by it.
+        if self.pos > self.span.end || (self.pos == self.span.end && self.pos > self.span.start) {
             return None;
         }
         let pos = position::Position::new(self.span.input, self.pos)?;
